@@ -127,7 +127,7 @@ def check(pid, tier="quick", seed=0, jobs=None, only=None, verbose=False):
     for r in broken:
         code = 2 if r["status"] == "binding-error" else 3
         exit_code = max(exit_code, code)
-        lines.append("%s %s: %s" % ("UNDECIDED" if code == 2 else "CHECKER-ERROR", r["qual"], r.get("error", "")[:600]))
+        lines.append("%s %s: %s" % ("UNDECIDED" if code == 2 else "CHECKER-ERROR", r["qual"], r.get("error", "")[:int(os.environ.get("PYVC_TRACE_CHARS", "600"))]))
     # ---------------------------------------------------------------- aggregate
     named = {}
     backends = {}
@@ -288,7 +288,7 @@ def check(pid, tier="quick", seed=0, jobs=None, only=None, verbose=False):
             continue
         oname = "%s/%s/shape/function-within-the-verified-subset" % (pid, r["qual"])
         json.dump({"property": pid, "obligation": oname, "model": {}, "replay": rspec,
-                   "solver_output": "no verification conditions: %s; witness search on the real code" % r.get("error", "")[:600]},
+                   "solver_output": "no verification conditions: %s; witness search on the real code" % r.get("error", "")[:int(os.environ.get("PYVC_TRACE_CHARS", "600"))]},
                   open(rp, "w"), indent=1, default=str)
         rc, out = run_replay(rp)
         if rc == 1:
